@@ -391,6 +391,44 @@ func CorpusFiles(prop string) []string {
 	return out
 }
 
+var (
+	inflightF  *os.File
+	inflightMu sync.Mutex
+)
+
+// InFlight records the case about to be executed in a side file
+// (VERIF_INFLIGHT), so that the driver can re-run it alone if the process
+// dies from a fatal runtime error, the memory limit or a hang.
+func InFlight(meta string, input []byte) {
+	path := os.Getenv("VERIF_INFLIGHT")
+	if path == "" {
+		return
+	}
+	inflightMu.Lock()
+	defer inflightMu.Unlock()
+	if inflightF == nil {
+		f, err := os.OpenFile(path, os.O_CREATE|os.O_RDWR|os.O_TRUNC, 0o644)
+		if err != nil {
+			return
+		}
+		inflightF = f
+	}
+	hdr := []byte(meta + "\n")
+	_ = inflightF.Truncate(0)
+	_, _ = inflightF.WriteAt(hdr, 0)
+	_, _ = inflightF.WriteAt(input, int64(len(hdr)))
+}
+
+// MyShare reports whether item i of an enumeration belongs to this shard.
+func MyShare(i int) bool { return i%Shards() == Shard() }
+
+// FlushAndExit writes the statistics and ends the process (used after a
+// confirmed hang, when the stuck goroutine cannot be stopped).
+func FlushAndExit(code int) {
+	Flush()
+	os.Exit(code)
+}
+
 // ReplayPath returns the file named by VERIF_REPLAY ("" if unset).
 func ReplayPath() string { return os.Getenv("VERIF_REPLAY") }
 
